@@ -138,7 +138,9 @@ class Check(object):
         if self.machinery:
             for m in self.machinery[:5]:
                 print('MACHINERY-FAILURE: %s' % m[:3000])
-            return 2
+            # a violation that was demonstrated stands, whatever else went wrong in the run (a change that makes a kill
+            # point unreachable usually breaks the property at the neighbouring ones)
+            return 1 if seen else 2
         if seen:
             return 1
         print('OK property=%s tier=%s seed=%d: %d TLC states, %d transitions, %d real executions judged, %.1fs' % (
